@@ -62,6 +62,15 @@ theorem finishFlow_unfold (n : Nat) (f : FUid) (sc : List Score) (d : Bool) :
   unfold CoreVM.finishFlow vmDeact vmFinishBody vmFinishTail
   rfl
 
+/-- the body of `_finish_flow` starts with a read of the flow's index entry: without a record it raises -/
+theorem vmFinishBody_no_record (rec : FUid → M Unit) (fuel : Nat) (f : FUid) (sc : List Score) (d : Bool) (vm vm' : VM) (hw : WFI vm)
+    (hx : OMap.lookup f vm.r.fx = none) : vmFinishBody rec fuel f sc d vm ≠ .ok () vm' := by
+  intro h
+  unfold vmFinishBody at h
+  simp only [bind, EStateM.bind] at h
+  rw [getInst_run_none f vm (wfi_lookup_none vm hw f hx)] at h
+  cases h
+
 /-! ### `cs`-congruence of the Lifetime `_finish_flow` pieces -/
 
 /-- the part of `finishTail` after the stop-actions loop -/
@@ -620,7 +629,7 @@ theorem corevm_finish_is_op (hν : Function.Injective ν) (hφ : Function.Inject
   have hcs : CsRec (fun s c => Lifetime.abortFlow n s c true) := fun s c => cs_abortFlow n s c true
   rw [finishFlow_unfold] at h
   unfold Lifetime.finishFlow
-  rcases deact_refines ν φ hν hφ _ _ _ hrec hcs f d _ vm vm' hw h with ⟨t1, h1, a1, w1⟩ | ⟨vmK, tK, hK, aK, wK, hk⟩
+  rcases deact_refines ν φ hν hφ _ _ _ hrec hcs f d _ vm vm' hw (vmFinishBody_no_record _ n f sc d vm vm' hw.i) h with ⟨t1, h1, a1, w1⟩ | ⟨vmK, tK, hK, aK, wK, hk⟩
   · rw [h1]; exact ⟨t1, rfl, a1, w1⟩
   · rw [hK]
     simp only
